@@ -40,6 +40,8 @@ def handler(url, cmd, data, x, items):
 '''
 
 MANIFEST = b"requests>=2\npyyaml\n"
+# a second updatable manifest: two codemods needing the same package must still update only one of them
+MANIFEST2 = b"[metadata]\nname = demo\n\n[options]\ninstall_requires =\n    requests>=2\n    pyyaml\n"
 
 # the interacting codemods: import-adding, same call / same line, dependency-adding, string-assembled output,
 # node-removing, semgrep-prefiltered
@@ -103,6 +105,7 @@ def project_for(k1, k2):
         "two.py": s2.input.encode(),
         "collide.py": COLLISION,
         "requirements.txt": MANIFEST,
+        "setup.cfg": MANIFEST2,
     }
     ab, ba = _concat(s1.input, s2.input), _concat(s2.input, s1.input)
     if ab:
